@@ -2,3 +2,4 @@ import IbexModel.Dbl
 import IbexModel.Itv
 import IbexModel.Box
 import IbexModel.ItvG
+import IbexModel.Bwd
